@@ -6,7 +6,7 @@ wd='/tmp/w/soak'; os.makedirs(wd,exist_ok=True)
 seeds=[int(x) for x in sys.argv[1:]] or [2,3]
 jobs=[]
 for sd in seeds:
-    for prof in ["full","edits","rotation","revocation","disable","recaps","ids","big","static","grow"]:
+    for prof in ["full","edits","rotation","revocation","disable","recaps","ids","big","static","grow","crowd"]:
         for a in range(0,48,8):
             out=f"{wd}/s{sd}_{prof}_{a}.ndjson"
             jobs.append((["random","--profile",prof,"--seed",str(sd),"--from",str(a),"--to",str(a+8)],"default",out))
